@@ -35,7 +35,9 @@ class Growth:
     def __init__(self, eng):
         self.eng = eng
         self.gen = eng.prog.func("stochastic.Stochastic.generate")
-        self.funcs = with_nested(self.gen)
+        from ..util import with_helpers
+
+        self.funcs = with_helpers(eng, self.gen)
         g = eng.callgraph()
         # nested functions that reach attach_other
         self.reaches_attach = {f.qualname for f in self.funcs if ATTACH in eng.reachable_funcs([f.qualname])}
